@@ -194,6 +194,24 @@ class GenB(GenA):
             return {'c': 'remove', 'tgt': [name, sel], 'what': M.LIQUID}
         return {'c': 'remove', 'tgt': [name], 'what': rng.choice([M.ENZYME, M.SOLID, M.LIQUID] + self.subs_of())}
 
+    def new_stage_name(self):
+        """Mostly s1, s2, ...; sometimes a legal name that merely looks like something else: another capitalisation of the
+        reserved 'all', the name of a declared object or of a substance, a name differing from an earlier one by case."""
+        rng = self.rng
+        self.stage_n += 1
+        taken = self.run.lc.stage_names | ({self.run.lc.open_stage} if self.run.lc.open_stage else set())
+        if rng.random() < self.p.get('p_odd_stage_name', 0.12):
+            cand = ['All', 'ALL', 'aLL', ' all', 'all ', 'S1', 's 1', 'stage', '0', 'None']
+            cand += [n for n in self.run.lc.declared[:2]] + [self.W.real_name[n] for n in self.subs_of()[:1]]
+            cand = [n for n in cand if n not in taken]
+            if cand:
+                return rng.choice(cand)
+        name = f"s{self.stage_n}"
+        while name in taken:
+            self.stage_n += 1
+            name = f"s{self.stage_n}"
+        return name
+
     # ---- illegal calls (C16)
     def illegal_call(self):
         rng = self.rng
@@ -223,6 +241,14 @@ class GenB(GenA):
         if k == 'bad_args' and decl:
             return self.bad_args_call(rng.choice(decl))
         if k == 'dup_create' and decl:
+            how = rng.choice(['container', 'solution', 'solution_from'])
+            if how != 'container':
+                # an otherwise valid create_solution[_from] whose only fault is the name that is already taken
+                ev = self.gen_solution() if how == 'solution' else self.gen_solution_from()
+                c = self.to_call(ev) if ev is not None else None
+                if c is not None and self.run.try_eager(c)[0] == 'ok':
+                    c['name'] = rng.choice(decl)
+                    return c
             return {'c': 'create_container', 'name': rng.choice(decl), 'cap': '10 mL', 'contents': []}
         if k.startswith('undeclared') and und:
             n = rng.choice(und)
